@@ -197,6 +197,9 @@ func (g *Gen) expr(depth int) string {
 	if g.Bias == "opt" && r.Bool(0.06) {
 		return g.joinThenConst(depth)
 	}
+	if g.Bias == "opt" && r.Bool(0.04) {
+		return g.valueParamRecursion()
+	}
 	switch g.Bias {
 	case "opt":
 		w = []int{6, 8, 5, 8, 8, 8, 6, 3, 3, 2, 4, 2, 10, 4, 10, 3, 3, 4}
@@ -320,6 +323,10 @@ func (g *Gen) array0(depth int) string {
 
 func (g *Gen) object(depth int) string {
 	r := g.r
+	if g.Bias == "opt" && r.Bool(0.12) {
+		// the instruction shape of a literal object, reached another way, and the shorthand forms
+		return kernel.Pick(r, []string{`{a: ((1, .) | 2)}`, `{a: 1, b: ((2, .) | 3)}`, `{a: (. | 1)}`, `{a: 1, a: 2, b: 3}`, `{"a": 1, a: 2, ("a"): 3}`, `{a: 1, "b": 2} | .a = 9`, `{a}`, `{"a"}`, `{a, b: 1}`, `{$__loc__}`, `{"a\(1)": 2}`, `{(1, 2 | tostring): 3}`, `{a: (1, 2), b: (3, 4)}`, `{a: 1} + {b: .}`, `{a: {b: {c: 1}}} | .a.b.c`, `{a: [1, {b: 2}]} | .a[1].b = 3`, `{(.a? // "k"): 1}`, `{a: -1, b: -(1), c: +1}`, `{"x": 1}.x`, `{a: 1}[]`, `{a: 1} | keys`, `{@json "k\(1)": 1}?`, `{a: empty}`, `{a: 1, b: empty, c: 2}`, `{(empty): 1}`, `{a: 1, b: error("x")}?`})
+	}
 	n := r.Range(1, 3)
 	xs := make([]string, n)
 	for i := range xs {
@@ -540,7 +547,8 @@ func (g *Gen) callFunc(f genFunc, depth int) string {
 func (g *Gen) argument(depth int) string {
 	r := g.r
 	if r.Bool(0.6) {
-		return kernel.Pick(r, []string{".", ".a", ".[0]", "1", `"s"`, "null", "empty", "..", "@json", "-1", "[]", "{}", "label $q | .", "length", ".a?", ".[]?", "$__loc__", "input_line_number", "-(1)", "not", "error", "[1,2]", "{a:1}", ".[1:]", "first(.[]?)", "tojson"})
+		return kernel.Pick(r, []string{".", ".a", ".[0]", "1", `"s"`, "null", "empty", "..", "@json", "-1", "[]", "{}", "label $q | .", "length", ".a?", ".[]?", "$__loc__", "input_line_number", "-(1)", "not", "error", "[1,2]", "{a:1}", ".[1:]", "first(.[]?)", "tojson",
+			".[]", ".a[]?", "(1, 2)", "(., .)", ".[\"a\"]", ".[-1]", "break $nolabel"[0:0] + "values", "-1.5", "+1", "true", "(.)", "(1)", "((1))", "[.]", "{a: .}", ".a.b", ".[0][0]", "..?", "@text", "keys?"})
 	}
 	if len(g.vars) > 0 && r.Bool(0.3) {
 		return kernel.Pick(r, g.vars)
@@ -652,6 +660,35 @@ func (g *Gen) funcdef(depth int) string {
 	}
 	g.funcs = g.funcs[:nf]
 	return def + rest
+}
+
+// valueParamRecursion: self-calls of functions whose parameters are `$`-values, with arguments that
+// read other parameters (parallel assignment), generators as arguments, and a `$x` parameter used as
+// the filter x; in and out of tail position.
+func (g *Gen) valueParamRecursion() string {
+	r := g.r
+	n := strconv.Itoa(r.Range(2, 9))
+	def := kernel.Pick(r, []string{
+		"def vf($a; $b): if $a < N then vf($b; $a + 1) else [$a, $b] end; vf(0; 1)",
+		"def vf($a; $b; $n): if $n == 0 then $a else vf($b; $a + $b; $n - 1) end; vf(0; 1; N)",
+		"def vf($a; $b; $n): if $n > 0 then vf($b; $a; $n - 1) else [$a, $b] end; vf(1; 2; N)",
+		"def vf($a): if $a < N then vf($a + (1, 2)) else $a end; [limit(12; vf(0))]",
+		"def vf($x; $y): if $x < N then vf($x + 1; $x * 2) else [$x, $y] end; vf(0; 0)",
+		"def vf($x; $y): if $x < N then vf($x + 1; [$x, $y]) else $y end; vf(0; null)",
+		"def vf(g; $a): if $a < N then vf(g; $a + 1 | g) else $a end; vf(. * 2; 0)",
+		"def vf($a; g): if $a < N then vf($a + 1; g | . + $a) else g end; 1 | vf(0; .)",
+		"def vf($x; $n): if $n > 0 then vf(x + 1; $n - 1) else x end; vf(0; N)",
+		"def vf($a; $b): if $a < N then (vf($b; $a + 1), .) else [$a, $b] end; [limit(8; vf(0; 1))]",
+		"def vf($a; $b): if $a < N then vf($b; $a + 1) | . else [$a, $b] end; vf(0; 1)",
+		"def vf($a; $b): if $a >= N then [$a, $b] elif $a % 2 == 0 then vf($a + 1; $a) else vf($a + 2; $b + $a) end; vf(0; 0)",
+		"def vf($a; $b): $a as $s | if $s < N then vf($b + 1; $s) else [$s, $b] end; vf(0; 0)",
+		"def vf($a; $b): if $a < N then try vf($b; $a + 1) catch . else error([$a, $b]) end; vf(0; 1)",
+		"def vf($a; $b): if $a < N then vf($a + 1; $a + $b) else {a: $a, b: $b} end; vf(0; (1, 10))",
+		"def vf($a; $b): label $l | if $a < N then vf($b; $a + 1) else [$a, $b], break $l end; vf(0; 1)",
+		"def vf($p; $q): reduce range(2) as $i (0; . + $p) | if $p < N then vf($q + 1; $p) else [., $p, $q] end; vf(0; 0)",
+		"def vf($a; $b): if .k < N then (.k += 1 | vf($b; $a + .k)) else [$a, $b, .k] end; {k: 0} | vf(0; 1)",
+	})
+	return "(" + strings.ReplaceAll(def, "N", n) + ")"
 }
 
 func (g *Gen) recursive(name string, depth int) (genFunc, string) {
